@@ -7,6 +7,7 @@ import Dcg.Gen.Templates
 import Dcg.Proofs.TemplateLex
 import Dcg.Proofs.TemplateCheckLex
 import Dcg.Proofs.TemplateCheckTable
+import Dcg.Proofs.TemplateSites
 /-
 C10 — text taken from the input ends up as data, never as code.
 Only property theorems live here; helper lemmas are in Dcg/Proofs/Escape.lean.
@@ -175,6 +176,36 @@ theorem template_lexically_closed (name : String) (t : List Tpl)
     exact List.all_eq_true.mp hall (name, t) hm
   exact lex_check_sound [] [] t hc ctx o hr (Consistent_nil _) hv
 
+/-- **Every interpolation is made in a lexical state its class may occupy — in every rendering.**
+For every template, every environment and every interpolation `s` made outside a
+`{% filter %}` block: the rendered text is `s.before ++ s.value ++ rest`, and the lexer state
+reached on `s.before` is one that `Model/Sites.allowed` permits for the reviewed class of the
+site's expression (schema text only inside a triple-quoted string and only through
+`escape_docstring`, a TypedDict key only inside `'…'`, identifiers / type hints / repr values in
+code, comment lines in a comment; no quote or backslash pending).  This is the per-site statement
+that the table-based `site_safe` only asserted of the Python analysis' output; here it is proved
+of the renderings themselves.  (Interpolations inside the `indent(4)` filter block — the two sites
+of the included Config templates — are covered by this theorem applied to `pydantic/Config.jinja2`
+and `pydantic_v2/ConfigDict.jinja2` themselves, which the block includes in code state.) -/
+theorem sites_in_allowed_states (name : String) (t : List Tpl)
+    (ht : Dcg.Gen.TemplateAst.templates.lookup name = some t) (ctx : List (String × Val)) (o : Out)
+    (hr : renderTemplate ctx t = .ok o) (hv : ∀ p ∈ o.slots, LexHyp p.1 p.2) :
+    ∀ s ∈ o.sites, siteAllowed s.expr (lexAuto.run .code s.before) = true ∧
+      ∃ rest, o.text = s.before ++ s.value ++ rest := by
+  have hc : check lexAuto .code lexGood [] [] t = true := by
+    have hall := Dcg.Proofs.TemplateCheckLex.lexCheckAll_ok
+    unfold Dcg.Proofs.TemplateCheckLex.lexCheckAll at hall
+    exact List.all_eq_true.mp hall (name, t) (mem_of_lookup ht)
+  intro s hs
+  obtain ⟨qs, hq⟩ := Dcg.Proofs.TemplateSites.sites_allowed_of_check lexSound .code lexGood [] [] t hc ctx o hr
+    (Consistent_nil _) hv s hs
+  refine ⟨?_, Dcg.Proofs.TemplateSites.renderTemplate_positioned hr s hs⟩
+  have hq' : lslot s.expr (lexAuto.run .code s.before) = some qs := hq
+  unfold lslot at hq'
+  split at hq'
+  · assumption
+  · cases hq'
+
 /-- **The Python site table is what the Lean analysis computes.** The table `Gen/Templates` (sites
 with their lexical states, final states) written by the data-flow analysis in
 `vlib/translate/templates.py` equals, row by row, the per-site state sets of the sound Lean
@@ -187,6 +218,18 @@ theorem python_site_table_is_lean_analysis : Dcg.Proofs.TemplateCheckTable.table
 base lists, type hints without string literals — satisfy the hypothesis at every site -/
 theorem plain_values_lexically_neutral (e : Expr) (v : List Char)
     (h : ∀ c ∈ v, plainCh c = true) : LexHyp e v := lexHyp_of_plain e v h
+
+/-- non-vacuity of the two theorems above: a rendering of the functional TypedDict template with a
+key that is not an identifier and a described class; all its values satisfy the hypothesis -/
+example : ∃ o, renderTemplate [("class_name", .str "M".toList), ("description", .str "a \"doc\"".toList),
+      ("all_fields", .list [.dict [("key", .str "a b".toList), ("type_hint", .str "str".toList)]])]
+      Dcg.Gen.TemplateAst.t_TypedDictFunction = .ok o ∧ o.sites.length = 5 ∧ (∀ p ∈ o.slots, LexHyp p.1 p.2) := by
+  refine ⟨_, rfl, by decide +kernel, ?_⟩
+  intro p hp
+  refine lexHypB_sound ?_
+  revert p
+  rw [← List.all_eq_true]
+  decide +kernel
 
 /-- non-vacuity: the hypothesis holds for an escaped docstring text that ends in two quotes and
 contains a newline, at a docstring site; and for a key inside `'…'` -/
